@@ -79,6 +79,36 @@ pub fn run(p: &Prog, cfg: &Cfg, rep: &mut Report) {
             return;
         }
     }
+    // documents shaped like the message of an overridden entry point, sent to every entry point:
+    // whatever runs must belong to the entry point that was addressed
+    if !p.model.contract.overrides.is_empty() {
+        let strat = ("[a-z]{0,6}", 0usize..KINDS.len(), any::<bool>()).prop_map(|(t, k, mt)| json!({"tag": t, "k2": k, "mt": mt})).boxed();
+        run_cases(cfg, &p.model.id, "override-docs", strat, rep, |sel: &Value, tally| {
+            let k2 = KINDS[sel["k2"].as_u64().unwrap() as usize];
+            let via_mt = sel["mt"].as_bool().unwrap();
+            let table = if via_mt { &p.mt_entries } else { &p.entries };
+            let Some(entry) = table.get(&k2) else { return Ok(()) };
+            let doc = json!({"tag": sel["tag"]});
+            tally.class(&format!("pair:override-message->{}", k2.attr()));
+            let mut harness = Harness::new(7);
+            match entry(&mut harness, doc.to_string().as_bytes()) {
+                Err(_) => Ok(()),
+                Ok(out) => {
+                    if let Some(bad) = out.log.iter().find(|r| kind_of_id(&r.id) != k2.attr()) {
+                        return Err(viol(
+                            format!("cross-kind:override->{}", k2.attr()),
+                            "a handler ran for a message that arrived at the entry point of another kind",
+                            json!({"doc": doc, "sent_to": k2.ep(), "ran": bad.id, "overridden": p.model.contract.overrides, "via": if via_mt {"multitest"} else {"entry_points"}}),
+                        ));
+                    }
+                    if !out.log.is_empty() {
+                        tally.nontrivial(&(&p.model.id, "override-doc", k2, via_mt));
+                    }
+                    Ok(())
+                }
+            }
+        });
+    }
     // Reply documents sent to the other entry points
     if p.entries.contains_key(&Kind::Reply) || p.mt_entries.contains_key(&Kind::Reply) {
         let strat = (0usize..5, any::<bool>(), any::<u64>(), any::<bool>(), "[ -~]{0,10}")
